@@ -30,6 +30,8 @@ type handoverSpec struct {
 	resumer string // "resume" (coroutine.resume) | "wrap" (a coroutine.wrap function) | "go" (LState.Resume from a Go function)
 	nested  bool   // the resumer is itself a coroutine
 	k       int    // number of values handed over (1 for "error")
+	// thorough: run in the thorough tier only
+	thorough bool
 }
 
 func (h handoverSpec) name() string {
@@ -124,10 +126,11 @@ func handoverSpecs() []handoverSpec {
 	var hs []handoverSpec
 	for _, nested := range []bool{false, true} {
 		for _, res := range []string{"resume", "wrap", "go"} {
+			// nested: the quick tier runs one mode per resumer (a diagonal), the thorough tier all
 			hs = append(hs,
-				handoverSpec{mode: "yield", resumer: res, nested: nested, k: 20},
-				handoverSpec{mode: "return", resumer: res, nested: nested, k: 7},
-				handoverSpec{mode: "error", resumer: res, nested: nested, k: 1})
+				handoverSpec{mode: "yield", resumer: res, nested: nested, k: 20, thorough: nested && res != "resume"},
+				handoverSpec{mode: "return", resumer: res, nested: nested, k: 7, thorough: nested && res != "go"},
+				handoverSpec{mode: "error", resumer: res, nested: nested, k: 1, thorough: nested && res != "wrap"})
 		}
 	}
 	// a single value and none at all (only the boolean is handed over)
@@ -139,7 +142,7 @@ func handoverSpecs() []handoverSpec {
 func init() {
 	for _, h := range handoverSpecs() {
 		h := h
-		limitProgs = append(limitProgs, limitProg{name: h.name(), kind: "reg", src: h.src(), co: h.nested, handover: true,
+		limitProgs = append(limitProgs, limitProg{name: h.name(), kind: "reg", src: h.src(), co: h.nested, handover: true, thoroughOnly: h.thorough,
 			want: func(n int) int { return n + h.handed() }})
 	}
 }
